@@ -3,6 +3,7 @@ use crate::runner::Monitor;
 pub mod c01;
 pub mod c02;
 pub mod c03;
+pub mod c04;
 pub mod c10;
 pub mod c12;
 pub mod c13;
@@ -18,6 +19,7 @@ pub fn by_id(id: &str) -> Option<Box<dyn Monitor>> {
         "C01" => Box::new(c01::C01),
         "C02" => Box::new(c02::C02),
         "C03" => Box::new(c03::C03),
+        "C04" => Box::new(c04::C04),
         "C10" => Box::new(c10::C10::new()),
         "C12" => Box::new(c12::C12),
         "C13" => Box::new(c13::C13),
